@@ -266,25 +266,101 @@ def check_extraction(chk, v, rule="R5"):
     chk.require(ok, rule, "tLweExtractLweSample extracts coefficient 0", where=g.where, ok="index 0", bad="calls %s" % [summ.show_piece(c) for c in calls],
                 variant=vn, nontrivial=False)
     # key extraction: key[i*N+j] = key_i[j]
+    check_extract_key(chk, v, rule)
+
+
+def check_extract_key(chk, v, rule):
+    """tLweExtractKey: the LWE key is the concatenation of the k key polynomials, key[i*N+j] = key_i[j].
+    Statements (element stores and memcpy calls, the latter as u -> dst[u] = src[u], u < bytes/4) are enumerated on a small
+    grid of (k, N) from their loop descriptors: every destination index in [0, k*N) must be written exactly once, from
+    coefficient j < N of polynomial i (each polynomial is its own array of N coefficients)."""
+    from sa.pipeline import AnalysisBroken
+    from sa.secretflow import eval_term
+    import itertools
+    vn = v.name
     h = v.fn("tLweExtractKey")
     hps, _ = summ.pieces(v, h)
     r, kk = [p["n"] for p in h.params]
-    st = [p for p in hps if p["kind"] == "store" and sym.root_of(p["lv"]) == sym.sym(r)]
+    Nk, Kk = sym.arrow(P(kk, "params"), "N"), sym.arrow(P(kk, "params"), "k")
+    dstarr = P(r, "key")
+    stmts = []
+    strip_ = lambda t: strip_(t[2]) if t and t[0] == "cast" else t
+    for p in hps:
+        if p["kind"] == "store" and sym.root_of(p["lv"]) == sym.sym(r) and p["lv"][0] == "idx":
+            if p["op"] != "=":
+                chk.broken("tLweExtractKey: operator %s on the key" % p["op"])
+            stmts.append((p["loops"], p["guards"], p["lv"], p["val"], p["line"]))
+        elif p["kind"] == "call" and p["name"] in ("memcpy", "std::memcpy", "memmove") and len(p["args"]) == 3 and \
+                sym.root_of(strip_(p["args"][0])) == sym.sym(r):
+            u = sym.sym("u@%s" % p["line"])
+            nbytes = strip_(p["args"][2])
+            cnt = sym.binop("/", nbytes, I(4)) if sym.const_value(nbytes) is None else I(sym.const_value(nbytes) // 4)
+            lp = {"var": u, "lo": ZERO, "cmp": "<", "hi": cnt, "step": I(1), "l": p["line"]}
+            stmts.append((p["loops"] + [lp], p["guards"], sym.idx(strip_(p["args"][0]), u), sym.idx(strip_(p["args"][1]), u), p["line"]))
+        elif p["kind"] in ("asm", "while", "unknown"):
+            chk.broken("tLweExtractKey: construct at line %s not recognised" % p["line"])
     problems = []
-    if len(st) != 1 or len(st[0]["loops"]) != 2:
-        problems.append("expected one (i,j) nest")
-    else:
-        il, jl = st[0]["loops"]
-        i, j = il["var"], jl["var"]
-        Nk, Kk = sym.arrow(P(kk, "params"), "N"), sym.arrow(P(kk, "params"), "k")
-        want_lv = sym.idx(P(r, "key"), sym.add(sym.mul(i, Nk), j))
-        want_val = sym.idx(sym.fld(sym.idx(P(kk, "key"), i), "coefs"), j)
-        if st[0]["lv"] != want_lv or st[0]["val"] != want_val or st[0]["op"] != "=":
-            problems.append("statement is %s" % summ.show_piece(st[0]))
-        if (il["lo"], il["cmp"], il["hi"]) != (ZERO, "<", Kk) or (jl["lo"], jl["cmp"], jl["hi"]) != (ZERO, "<", Nk):
-            problems.append("ranges are not [0,k) x [0,N)")
+    if not stmts:
+        problems.append("nothing is written to the extracted key")
+    for kv, nv in itertools.product((1, 2, 3), (1, 2, 4)):
+        if problems:
+            break
+        env0 = {Kk: kv, Nk: nv}
+        seen = {}
+
+        def go(loops, k_, env, rec):
+            if k_ == len(loops):
+                rec(env)
+                return
+            l = loops[k_]
+            lo, hi, st = eval_term(l["lo"], env), eval_term(l["hi"], env), sym.const_value(l["step"])
+            if lo is None or hi is None or not st or st <= 0 or l["cmp"] not in ("<", "<="):
+                raise AnalysisBroken("tLweExtractKey: loop at line %s not evaluable" % l.get("l"))
+            x = lo
+            while (x < hi) if l["cmp"] == "<" else (x <= hi):
+                e2 = dict(env)
+                e2[l["var"]] = x
+                go(loops, k_ + 1, e2, rec)
+                x += st
+        for loops, guards, lv, val, line in stmts:
+            def rec(env, lv=lv, val=val, line=line, guards=guards):
+                for g_ in guards:
+                    gv = eval_term(g_, env)
+                    if gv is None:
+                        raise AnalysisBroken("tLweExtractKey: guard not evaluable")
+                    if not gv:
+                        return
+                if lv[1] != dstarr:
+                    raise AnalysisBroken("tLweExtractKey: destination %s" % sym.show(lv))
+                d = eval_term(lv[2], env)
+                sv = strip_(val)
+                if not (sv[0] == "idx" and sv[1][0] == "fld" and sv[1][2] == "coefs" and sv[1][1][0] == "idx" and sv[1][1][1] == P(kk, "key")):
+                    raise AnalysisBroken("tLweExtractKey: source %s is not key->key[i].coefs[j]" % sym.show(val))
+                si, sj = eval_term(sv[1][1][2], env), eval_term(sv[2], env)
+                if d is None or si is None or sj is None:
+                    raise AnalysisBroken("tLweExtractKey: index not evaluable at line %s" % line)
+                seen.setdefault(d, []).append((si, sj, line))
+            go(loops, 0, env0, rec)
+        for d in range(kv * nv):
+            got = seen.get(d, [])
+            want = (d // nv, d % nv)
+            if len(got) != 1:
+                problems.append("with k=%d, N=%d: key[%d] is written %d times" % (kv, nv, d, len(got)))
+                break
+            si, sj, line = got[0]
+            if sj >= nv or si >= kv:
+                problems.append("with k=%d, N=%d: key[%d] is read from coefficient %d of key polynomial %d (line %s), but each key polynomial is a "
+                                "separate array of N = %d coefficients: the read runs past its end" % (kv, nv, d, sj, si, line, nv))
+                break
+            if (si, sj) != want:
+                problems.append("with k=%d, N=%d: key[%d] <- key_%d[%d], the extracted-sample layout needs key_%d[%d]" % (kv, nv, d, si, sj, want[0], want[1]))
+                break
+        extra = sorted(x for x in seen if x < 0 or x >= kv * nv)
+        if extra and not problems:
+            problems.append("with k=%d, N=%d: key[%d] is written, the extracted key has k*N = %d coefficients" % (kv, nv, extra[0], kv * nv))
     chk.require(not problems, rule, "tLweExtractKey concatenates the key polynomials in the same i*N+j order", where=h.where,
-                ok="key[i*N+j] = key_i[j] over [0,k) x [0,N)", bad="; ".join(problems), variant=vn)
+                ok="key[i*N+j] = key_i[j] over [0,k) x [0,N) (%d statement(s); index sets enumerated for k in 1..3, N in {1,2,4})" % len(stmts),
+                bad="; ".join(problems), variant=vn)
 
 
 def run(chk):
